@@ -1,0 +1,17 @@
+//go:build verif
+
+package firewall
+
+import (
+	"github.com/keep-network/keep-common/pkg/cache"
+	"github.com/keep-network/keep-core/pkg/net"
+)
+
+// Verification hook (build tag verif): re-exports existing identifiers only.
+
+// VerifCaches returns the positive and negative result caches of a firewall
+// created with AnyApplicationPolicy.
+func VerifCaches(fw net.Firewall) (positive, negative *cache.TimeCache) {
+	aap := fw.(*anyApplicationPolicy)
+	return aap.positiveResultCache, aap.negativeResultCache
+}
